@@ -79,7 +79,12 @@ class BaseMDARoot(BaseMDASolver):
             self._parallel_linearization = False
 
         self._compute_input_coupling_names()
-        self._set_resolved_variables(self.coupling_structure.strong_couplings)
+        # The residuals are functions of the resolved variables only:
+        # all the couplings must be resolved,
+        # otherwise a coupling between two groups of strongly coupled disciplines,
+        # which is not a strong coupling,
+        # would be taken from the previous evaluation of the residuals.
+        self._set_resolved_variables(self.coupling_structure.all_couplings)
 
     def _linearize_disciplines_sequentially(self, input_data: StrKeyMapping) -> None:
         """Linearize the disciplines sequentially.
